@@ -19,6 +19,7 @@ struct Taps
     uint64_t ticks = 0;       // progress-handler invocations
     uint64_t mallocs = 0;     // SQLite allocations
     uint64_t inflate_calls = 0;
+    uint64_t max_alloc = 0;   // largest single heap request of the current API call (C++ operator new / malloc)
     uint64_t prepares = 0;
     bool record_sql = false;
     std::vector<std::string> sql_log;
